@@ -103,12 +103,33 @@ pub struct HState {
     pub recovered_titles: RefCell<Vec<String>>,
     /// control sequences of the harness fonts 0..=3 (\\nullfont, \\vpfa, \\vpfb, \\vpfc)
     pub font_refs: Vec<Option<token::CommandRef>>,
+
+    // ---- additions for C09 (all default to "off": no behaviour change for other users) ----
+    /// number of calls of `variable_assignment_scope_hook` (one per started assignment-like command)
+    pub assignments: Cell<u64>,
+    /// when set, every recoverable error is handed to this function before the interaction mode
+    /// decides about it; the first `Err` is kept in `hook_failure`
+    pub recovered_check: Option<fn(&texlang::error::TracedTexError) -> Result<(), String>>,
+    pub hook_failure: RefCell<Option<String>>,
+    /// when true the titles of recovered errors are recorded in `recovered_titles` in every mode
+    pub record_titles: bool,
+    /// when true `post_macro_expansion_hook` performs the computations of
+    /// `texlang_stdlib::tracingmacros::hook` (which prints with `println!` and cannot be captured)
+    /// and adds the length of what would be printed to `trace_macro_bytes`
+    pub trace_macros: bool,
+    pub trace_macro_bytes: Cell<u64>,
+    /// recoverable errors since the last expansion tick; more than `no_progress_limit` (if non-zero)
+    /// sets `no_progress` and cuts the run: an endless recovery loop that expands nothing
+    pub errors_since_tick: Cell<u64>,
+    pub no_progress_limit: u64,
+    pub no_progress: Option<Rc<Cell<bool>>>,
 }
 
 impl HState {
     fn tick(&self) {
         let n = self.steps.get() + 1;
         self.steps.set(n);
+        self.errors_since_tick.set(0);
         let b = self.budget.get();
         if b != 0 && n > b {
             crate::engine::panics::budget_exceeded();
@@ -136,6 +157,30 @@ impl TexlangState for HState {
         input.state().tick();
         // texlang_stdlib::tracingmacros::hook prints to the real stdout with println!; the harness
         // does not call it (what it prints is not part of any property).
+        // exactly when the shipped hook computes: \tracingmacros > 0 (the component's field is private;
+        // its serialised form is {"tracing_macros": n}; if that ever changes the computation always runs)
+        if input.state().trace_macros
+            && serde_json::to_value(&input.state().tracing_macros).ok().and_then(|v| v.get("tracing_macros").and_then(|x| x.as_i64())).unwrap_or(1) > 0
+        {
+            // the same computations as tracingmacros::hook, written to a counter instead of stdout
+            use texlang::token::write_tokens;
+            let mut n = 0usize;
+            let trace = input.vm().trace(token);
+            n += trace.value.len();
+            let interner = input.vm().cs_name_interner();
+            for argument in arguments.iter() {
+                n += write_tokens(*argument, interner).len();
+            }
+            for replacement in tex_macro.replacements() {
+                match replacement {
+                    texlang::texmacro::Replacement::Tokens(tokens) => n += write_tokens(tokens.iter().rev(), interner).len(),
+                    texlang::texmacro::Replacement::Parameter(i) => n += (i + 1).to_string().len(),
+                }
+            }
+            n += write_tokens(reversed_expansion.iter().rev(), interner).len();
+            let st = input.state();
+            st.trace_macro_bytes.set(st.trace_macro_bytes.get() + n as u64);
+        }
         let _ = (token, tex_macro, arguments, reversed_expansion);
     }
     #[inline]
@@ -149,6 +194,7 @@ impl TexlangState for HState {
     }
     #[inline]
     fn variable_assignment_scope_hook(state: &mut Self) -> texcraft_stdext::collections::groupingmap::Scope {
+        state.assignments.set(state.assignments.get() + 1);
         prefix::variable_assignment_scope_hook(state)
     }
     fn recoverable_error_hook(
@@ -156,6 +202,27 @@ impl TexlangState for HState {
         recoverable_error: texlang::error::TracedTexError,
     ) -> Result<(), Box<dyn texlang::error::TexError>> {
         self.recovered_errors.set(self.recovered_errors.get() + 1);
+        if let Some(check) = self.recovered_check {
+            if let Err(m) = check(&recoverable_error) {
+                let mut slot = self.hook_failure.borrow_mut();
+                if slot.is_none() {
+                    *slot = Some(m);
+                }
+            }
+        }
+        if self.record_titles && !self.count_and_continue {
+            self.recovered_titles.borrow_mut().push(recoverable_error.error.title());
+        }
+        if self.no_progress_limit != 0 {
+            let k = self.errors_since_tick.get() + 1;
+            self.errors_since_tick.set(k);
+            if k > self.no_progress_limit {
+                if let Some(f) = &self.no_progress {
+                    f.set(true);
+                }
+                crate::engine::panics::budget_exceeded();
+            }
+        }
         if self.count_and_continue {
             self.recovered_titles.borrow_mut().push(recoverable_error.error.title());
             if self.recovered_errors.get() > 1000 {
@@ -293,12 +360,94 @@ pub struct VmOptions {
     pub simple_expandafter: bool,
     pub files: Vec<(String, String)>,
     pub terminal: Vec<String>,
+    // ---- additions for C09 (defaults keep the previous behaviour) ----
+    /// `vm.working_directory = None` (what `VM::new` produces when `current_dir()` fails, e.g. wasm)
+    pub no_working_directory: bool,
+    /// terminal that behaves like the real `std::io::Stdin` implementation of `TerminalIn`: after the
+    /// scripted lines every read returns `Ok(())` with nothing appended (end of file); after
+    /// `terminal_read_cap` such reads the flag `terminal_spin` is set and the read fails
+    pub stdin_like_terminal: bool,
+    pub terminal_read_cap: u64,
+    pub terminal_spin: Option<Rc<Cell<bool>>>,
+    /// the two integer parameters `\dumpFormat`, `\dumpValidate` stay installed
+    pub dump_params: bool,
+    /// additionally install what the `texcraft` binary installs: `\par`, `\newline`, `\\`, and the
+    /// REPL commands `\exit`, `\help`, `\doc`
+    pub script_commands: bool,
+    pub trace_macros: bool,
+    pub record_titles: bool,
+    pub recovered_check: Option<fn(&texlang::error::TracedTexError) -> Result<(), String>>,
+    pub no_progress_limit: u64,
+    pub no_progress: Option<Rc<Cell<bool>>>,
 }
 
 impl Default for VmOptions {
     fn default() -> Self {
-        VmOptions { budget: 20_000, count_and_continue: false, simple_expandafter: false, files: vec![], terminal: vec![] }
+        VmOptions {
+            budget: 20_000,
+            count_and_continue: false,
+            simple_expandafter: false,
+            files: vec![],
+            terminal: vec![],
+            no_working_directory: false,
+            stdin_like_terminal: false,
+            terminal_read_cap: 64,
+            terminal_spin: None,
+            dump_params: false,
+            script_commands: false,
+            trace_macros: false,
+            record_titles: false,
+            recovered_check: None,
+            no_progress_limit: 0,
+            no_progress: None,
+        }
     }
+}
+
+/// Terminal double with the end-of-file behaviour of the shipped `impl TerminalIn for std::io::Stdin`
+/// (`Stdin::read_line` returns `Ok(0)` at end of file: `Ok(())`, nothing appended).
+pub struct StdinLikeTerminal {
+    pub lines: Vec<String>,
+    pub next: usize,
+    pub eof_reads: u64,
+    pub cap: u64,
+    pub spin: Option<Rc<Cell<bool>>>,
+}
+
+impl texlang_common::TerminalIn for StdinLikeTerminal {
+    fn read_line(&mut self, _: Option<&str>, buffer: &mut String) -> std::io::Result<()> {
+        if let Some(l) = self.lines.get(self.next) {
+            buffer.push_str(l);
+            self.next += 1;
+            return Ok(());
+        }
+        self.eof_reads += 1;
+        if self.eof_reads > self.cap {
+            if let Some(f) = &self.spin {
+                f.set(true);
+            }
+            return Err(std::io::Error::new(std::io::ErrorKind::Other, "vp: terminal read cap reached at end of file"));
+        }
+        Ok(())
+    }
+}
+
+/// Built-ins selected by the options (superset of `built_ins`).
+pub fn built_ins_for(opts: &VmOptions) -> HashMap<&'static str, command::BuiltIn<HState>> {
+    let mut m = built_ins(opts.simple_expandafter);
+    if opts.dump_params {
+        m.insert("dumpFormat", job::get_dumpformat());
+        m.insert("dumpValidate", job::get_dumpvalidate());
+    }
+    if opts.script_commands {
+        m.insert("par", script::get_par());
+        m.insert("newline", script::get_newline());
+        m.insert("\\", command::Command::CharacterTokenAlias(Value::Other('\\')).into());
+        m.insert("exit", repl::get_exit());
+        m.insert("help", repl::get_help());
+        m.insert("doc", repl::get_doc());
+    }
+    m
 }
 
 pub fn built_ins(simple_expandafter: bool) -> HashMap<&'static str, command::BuiltIn<HState>> {
@@ -319,9 +468,12 @@ pub fn built_ins(simple_expandafter: bool) -> HashMap<&'static str, command::Bui
 }
 
 pub fn new_vm(opts: &VmOptions) -> Box<vm::VM<HState>> {
-    let mut vm = Box::new(vm::VM::<HState>::new_with_built_in_commands(built_ins(opts.simple_expandafter)));
+    let mut vm = Box::new(vm::VM::<HState>::new_with_built_in_commands(built_ins_for(opts)));
     let wd = std::path::PathBuf::from("/vpwd");
-    vm.working_directory = Some(wd.clone());
+    vm.working_directory = if opts.no_working_directory { None } else { Some(wd.clone()) };
+    // texlang-stdlib's default feature `time` initialises \time \day \month \year from the wall clock:
+    // pin them so that a run is a function of code and seed only.
+    vm.state.time = time::Component::new_with_values(754, 26, 9, 2026);
     let mut fs = InMemoryFileSystem::new(&wd);
     for (name, content) in &opts.files {
         fs.add_string_file(name, content);
@@ -331,7 +483,17 @@ pub fn new_vm(opts: &VmOptions) -> Box<vm::VM<HState>> {
     for l in &opts.terminal {
         term.add_line(l.clone());
     }
-    vm.state.error_mode.set_default_terminal(Rc::new(RefCell::new(term)));
+    if opts.stdin_like_terminal {
+        let t = StdinLikeTerminal { lines: opts.terminal.clone(), next: 0, eof_reads: 0, cap: opts.terminal_read_cap, spin: opts.terminal_spin.clone() };
+        vm.state.error_mode.set_default_terminal(Rc::new(RefCell::new(t)));
+    } else {
+        vm.state.error_mode.set_default_terminal(Rc::new(RefCell::new(term)));
+    }
+    vm.state.trace_macros = opts.trace_macros;
+    vm.state.record_titles = opts.record_titles;
+    vm.state.recovered_check = opts.recovered_check;
+    vm.state.no_progress_limit = opts.no_progress_limit;
+    vm.state.no_progress = opts.no_progress.clone();
     vm.state.out_sink = Some(Rc::new(RefCell::new(vec![])));
     vm.state.log_sink = Some(Rc::new(RefCell::new(vec![])));
     for name in ["nullfont", "vpfa", "vpfb", "vpfc"] {
